@@ -41,6 +41,13 @@ example (ddt dd m : ℝ) : (displace ddt dd 1 (1 / 12500) (-1 / 2) m).1 = ddt * 
   rw [displace_formula ddt dd 1 (1 / 12500) (-1 / 2) m (by norm_num)]
   norm_num
 
+/-- **a neutral mass sheet does not switch the PPN rescaling off**: at `λ = 1, κ = 0` the time-delay distance and the
+    magnitude are untouched, the deflector distance is still `Dd·(1+γ)/2` — there is no "nothing to displace" shortcut -/
+theorem neutral_mass_sheet_keeps_ppn (ddt dd γ m : ℝ) :
+    displace ddt dd γ 1 0 m = (ddt, dd * (1 + γ) / 2, m) := by
+  rw [displace_formula ddt dd γ 1 0 m (by norm_num)]
+  norm_num
+
 /-- **PPN and MST commute** -/
 theorem ppn_mst_commute (ddt dd γ lam κ m : ℝ) :
     (let p := displacePPN ddt dd γ; displaceMST p.1 p.2 lam κ m) =
